@@ -22,7 +22,14 @@ def _index_objects():
         objs.append(("h_index_tu.cpp", ["VH_KIND=%d" % k, "VH_DIM=%d" % d, "VH_PER=%d" % p], "k%d_%d_%d" % (k, d, p)))
     return objs
 
+def _num_objects():
+    objs = [("h_num_main.cpp", [], "main"), ("rt/sched.cpp", [], "sched"), ("h_num_p2p.cpp", [], "p2p")]
+    for pp, f in [(4,0),(6,0),(8,0),(12,0),(4,1),(8,1)]: objs.append(("h_num_rot.cpp", ["VH_P=%d" % pp, "VH_REALF=%d" % f], "rot%d_%d" % (pp, f)))
+    for o, f in [(3,0),(4,0),(5,0),(6,0),(7,0),(8,0),(3,1),(5,1)]: objs.append(("h_num_unif.cpp", ["VH_ORDER=%d" % o, "VH_REALF=%d" % f], "unif%d_%d" % (o, f)))
+    return objs
+
 BINARIES = {
+    "h_num": {"flavour": "plain", "objects": _num_objects(), "cflags": ["-fopenmp"], "ldflags": ["-lpthread", "-lfftw3", "-lfftw3f"], "about": "rotation / uniform kernels and direct P2P routines against long double references (assertions on, -O2)"},
     "h_mem": {"flavour": "asan", "objects": [("h_mem.cpp", [], "main")], "about": "TbfMemoryBlock layouts + byte-copied views of cell/particle groups with operators run on the views; viewer bounds hook H1"},
     "h_index": {"flavour": "asan", "objects": _index_objects(), "about": "public index API of Morton (Dim 1..4, periodic or not) and Hilbert (Dim 3) orderings against the coordinate model"},
     "h_sched": {"flavour": "asan", "objects": _sched_objects(0), "cflags": ["-fopenmp"], "ldflags": ["-lpthread"], "about": "OpenMP executors (plain and target/source) linked against the scheduler shim instead of libgomp; hostile schedules; O-dag, O-seq, P-rec; ASan+UBSan"},
@@ -186,6 +193,36 @@ CHECKS = {
         "rule": "cases = 8 layout families x random counts (0, 1, k*64/size, k*64/size+1, small, up to 2000/10^4) each followed by a random smaller count set; and random trees (Dim 1..3, periodic Dim 3) whose every cell/particle group is byte-copied, viewed, compared accessor by accessor, then executed through TbfAlgorithm on the views and compared byte for byte with the originals. non-trivial = any layout case / tree with >= 2 groups; distinct = case id or configuration signature.",
         "require_events": ["elements-checked", "layouts-exercised", "groups-viewed", "bytes-compared", "viewer-bounds-hook-checks"],
         "assumptions": [],
+    },
+    "C20": {
+        "level": EXPL,
+        "technique": "runtime monitoring: differential oracle - FullMutual / GenericInner / GenericFullRemote against a long double evaluation of the pairwise law with a first-order rounding bound",
+        "claim": "On every explored pair of particle clouds (counts 0..500 incl. 0, 1 and +-1 around multiples of 4..64, separations over 12 orders of magnitude, either sign, float and double, non-zero initial results) the routines added to every target sum q_j/r and q_i q_j (x_j-x_i)/r^3 within (n+12) eps times the sum of absolute terms, excluded the self term, left sources untouched in the one-sided routine, produced bit-exactly opposite forces for a single pair and balanced total force in general.",
+        "note": "Scalar path only: Inastemp is not present in this image, the vectorised path is out of reach.",
+        "jobs": [{"bin": "h_num", "mode": "c20", "env": {"VH_BOUNDS": "/verif/bounds.json"}}],
+        "rule": "case = random source and target clouds; remote, mutual and inner routines each compared component by component with the long double reference. non-trivial = both clouds non-empty; distinct = (type, counts, scale, sign, initial-rhs flag).",
+        "require_events": ["p2p-values-checked", "p2p-opposite-pairs-checked"],
+        "assumptions": ["tolerance coefficient p2p.coef in bounds.json (2.0) multiplies the first-order worst-case summation bound"],
+    },
+    "C04": {
+        "level": EXPL,
+        "technique": "runtime monitoring: rotation-kernel FMM results compared with a long double direct sum (error normalised by the sum of absolute pair contributions) under calibrated P-dependent bounds; invariance monitors (grouping, executor via scheduler shim, linearity in the charges); periodic variant against the explicit image sum",
+        "claim": "On every explored input (cubic boxes of any centre/width, points on cell faces/centres/axes, either charge sign, heights 1..5 quick / 1..7 thorough, P in {4,6,8,12}, float and double) potentials and forces were finite and within the calibrated bound of order P, results were unchanged to rounding by block size, grouping mode, executor and linear splitting of the charges, and the periodic variant matched the explicit sum over the reported images.",
+        "note": "Bounds are empirical: 6x the maximum error observed in calibration runs on the repaired tree (bounds.json); they decrease with P.",
+        "jobs": [{"bin": "h_num", "mode": "c04", "env": {"VH_BOUNDS": "/verif/bounds.json"}, "timeout": 3000}],
+        "rule": "case = random charged particle set (7 distributions incl. cell centres and axes) in a random cubic box, rotation kernel of order P, sequential executor; every 3rd case re-run with another block size / mode / the OpenMP executor on the shim; every 5th case linearity; every 4th case periodic with extra levels -1..1(2). non-trivial = height >= 3 (periodic: any); distinct = (P, type, height, N, distribution, case id).",
+        "require_events": ["targets-compared", "fmm-runs", "invariance-pairs", "periodic-runs"],
+        "assumptions": ["accuracy bounds are calibrated, not derived"],
+    },
+    "C05": {
+        "level": EXPL,
+        "technique": "runtime monitoring: uniform-kernel FMM results compared with a long double direct sum under calibrated order-dependent bounds; invariance monitors incl. cell-by-cell parent expansions with children delivered one at a time vs all at once; target/source and periodic variants",
+        "claim": "On every explored input (orders 3..8, float and double, heights 1..5 quick / 1..6 thorough) potentials and forces were finite and within the calibrated bound of the order, unchanged to rounding by block size, grouping mode and executor; parent expansions were equal to rounding whether children arrived in one batch or one by one; target/source and periodic variants matched their references.",
+        "note": "Bounds are empirical (bounds.json), 6x the calibration maximum.",
+        "jobs": [{"bin": "h_num", "mode": "c05", "env": {"VH_BOUNDS": "/verif/bounds.json"}, "timeout": 3000}],
+        "rule": "case = random charged particle set in a random cubic box, FUnifKernel<FInterpMatrixKernelR> of the given order; every 3rd accuracy case re-run with block size 1 or one huge block and another executor, comparing results and every cell's multipole expansion; every 5th case periodic, every 5th target/source. non-trivial = height >= 3 (periodic: any); distinct = (order, type, height, N, distribution, case id).",
+        "require_events": ["targets-compared", "fmm-runs", "invariance-pairs", "cells-compared", "periodic-runs", "tsm-runs"],
+        "assumptions": ["accuracy bounds are calibrated, not derived"],
     },
 }
 SPECIAL = {}
